@@ -140,13 +140,17 @@ def mutants(prop, names, tier, runs):
                 m = json.load(f)
             if str(m.get('check_result', '')).startswith('NOT-CAUGHT-BY-DESIGN'):
                 status, detail = 'accepted-miss', m.get('check_detail', '')[:160]
+            elif tier == 'quick' and str(m.get('check_detail', '')).startswith('THOROUGH tier only'):
+                status, detail = 'thorough-only', m.get('check_detail', '')[:160]
         print('%-8s %-40s %-10s %s' % (prop, name, status, detail))
         sys.stdout.flush()
         res.append((name, status))
     accepted = [n for n, s in res if s == 'accepted-miss']
-    missed = [n for n, s in res if s != 'accepted-miss' and (not s.startswith('caught') or '(!)' in s or 'replay-failed' in s)]
-    print('MUTANTS %s: %d/%d caught%s%s' % (prop, len(res) - len(missed) - len(accepted), len(res), (' ; not caught: %s' % missed) if missed else '',
-                                           (' ; outside the statement, not caught by design: %s' % accepted) if accepted else ''))
+    thorough = [n for n, s in res if s == 'thorough-only']
+    missed = [n for n, s in res if s not in ('accepted-miss', 'thorough-only') and (not s.startswith('caught') or '(!)' in s or 'replay-failed' in s)]
+    print('MUTANTS %s: %d/%d caught%s%s%s' % (prop, len(res) - len(missed) - len(accepted) - len(thorough), len(res), (' ; not caught: %s' % missed) if missed else '',
+                                             (' ; outside the statement, not caught by design: %s' % accepted) if accepted else '',
+                                             (' ; caught by the thorough tier only: %s' % thorough) if thorough else ''))
     return 0 if not missed else 1
 
 
